@@ -5,7 +5,7 @@ ONLY = {"chunks_from_slice", "chunks_from_slice_mut", "from_chunks_into_chunks",
 RULE = ("const half: const items for chunks_from_slice / chunks_from_slice_mut (+ slice_from_chunks(_mut) as inverse) with every L in 0..=4N+3 for N in {0,1,2,3,7,8,16,17} and boundary L for N up to 1024, "
         "and from_chunks / into_chunks (+_mut), element types u8, u32, (u8,u16), (); each item reads every element of every chunk and of the remainder inside the const evaluator - an out-of-bounds or misaligned slice is a hard E0080 error - "
         "asserts a checksum over counts and elements against the value computed natively in python, and is re-evaluated at run time; N = 0 with a non-empty slice must be rejected. "
-        "non-trivial = items with N >= 1; distinct = distinct (template, parameters)")
+        "Everything is compiled twice: against the crate built in the dev profile and in the release profile (debug assertions off). non-trivial = items with N >= 1; distinct = distinct (template, parameters)")
 
 
 def run(root, pid, tier, seed):
